@@ -3,51 +3,69 @@ import RaftProofs.ProtoVStep
 /-!
 Promise durability for the other released messages (vote requests, append acknowledgements):
 the durable term of the sender is never behind the term of anything it released, at release time
-and at all later times (`InvR`).
+and at all later times (`InvR`).  Acknowledgements are released only when the durable image covers
+them (`dacks`), and every image covers only acknowledgements generated at or below its term.
 -/
 namespace RaftModel.P
 
 def OMsg.owner : OMsg → Nat
   | .voteReq _ c _ _ => c
-  | .grant _ v _ => v
+  | .grant _ v _ _ => v
   | .ack _ f _ _ => f
 
+def OMsg.term : OMsg → Nat
+  | .voteReq t _ _ _ => t
+  | .grant t _ _ _ => t
+  | .ack t _ _ _ => t
+
 structure InvR (s : PSys) : Prop where
-  own : ∀ i, ∀ m ∈ (s.nodes i).outbox, m.owner = i
+  own : ∀ i, ∀ m ∈ (s.nodes i).outbox, m.owner = i ∧ (m.isAck = true → m.term ≤ (s.nodes i).term)
+  pim : ∀ i, ∀ im ∈ (s.nodes i).pending, ∀ m ∈ im.acks, m.owner = i ∧ m.term ≤ im.term
+  dak : ∀ i, ∀ m ∈ (s.nodes i).dacks, m.owner = i ∧ m.term ≤ (s.nodes i).dterm
   rq : ∀ r ∈ s.reqs, r.term ≤ (s.nodes r.cand).dterm
   ak : ∀ a ∈ s.acks, a.term ≤ (s.nodes a.frm).dterm
 
 theorem invR_init : InvR init := by
   constructor <;> simp [init]
 
-/-- a step that changes node `i` only, keeps its durable term from decreasing, keeps `reqs`/`acks`,
-and whose new outbox messages are owned by `i` -/
+/-- a step that changes node `i` only and releases nothing -/
 theorem invR_node (s : PSys) (h : InvR s) (i : Nat) (n : PNode) (s' : PSys)
     (hn : s'.nodes = upd s.nodes i n) (hr : s'.reqs = s.reqs) (ha : s'.acks = s.acks)
-    (hd : (s.nodes i).dterm ≤ n.dterm) (ho : ∀ m ∈ n.outbox, m.owner = i) : InvR s' := by
+    (hd : (s.nodes i).dterm ≤ n.dterm)
+    (ho : ∀ m ∈ n.outbox, m.owner = i ∧ (m.isAck = true → m.term ≤ n.term))
+    (hp : ∀ im ∈ n.pending, ∀ m ∈ im.acks, m.owner = i ∧ m.term ≤ im.term)
+    (hk : ∀ m ∈ n.dacks, m.owner = i ∧ m.term ≤ n.dterm) : InvR s' := by
+  have hnode : ∀ j, j ≠ i → s'.nodes j = s.nodes j := by intro j hj; rw [hn]; simp [upd, hj]
+  have hnodei : s'.nodes i = n := by rw [hn]; simp [upd]
   constructor
   · intro j m hm
-    rw [hn] at hm
     by_cases hj : j = i
-    · subst hj; simp only [upd, if_true] at hm; exact ho m hm
-    · simp only [upd, hj, if_false] at hm; exact h.own j m hm
+    · subst hj; rw [hnodei] at hm ⊢; exact ho m hm
+    · rw [hnode j hj] at hm ⊢; exact h.own j m hm
+  · intro j im him m hm
+    by_cases hj : j = i
+    · subst hj; rw [hnodei] at him; exact hp im him m hm
+    · rw [hnode j hj] at him; exact h.pim j im him m hm
+  · intro j m hm
+    by_cases hj : j = i
+    · subst hj; rw [hnodei] at hm ⊢; exact hk m hm
+    · rw [hnode j hj] at hm ⊢; exact h.dak j m hm
   · intro r hr'
     rw [hr] at hr'
     have := h.rq r hr'
-    rw [hn]
     by_cases hj : r.cand = i
-    · simp only [upd, hj, if_true]; rw [hj] at this; omega
-    · simp only [upd, hj, if_false]; exact this
+    · rw [hj, hnodei]; rw [hj] at this; omega
+    · rw [hnode _ hj]; exact this
   · intro a ha'
     rw [ha] at ha'
     have := h.ak a ha'
-    rw [hn]
     by_cases hj : a.frm = i
-    · simp only [upd, hj, if_true]; rw [hj] at this; omega
-    · simp only [upd, hj, if_false]; exact this
+    · rw [hj, hnodei]; rw [hj] at this; omega
+    · rw [hnode _ hj]; exact this
 
-theorem mem_append_singleton_owner {l : List OMsg} {i : Nat} {x : OMsg}
-    (h : ∀ m ∈ l, m.owner = i) (hx : x.owner = i) : ∀ m ∈ l ++ [x], m.owner = i := by
+theorem own_append {l : List OMsg} {i t : Nat} {x : OMsg}
+    (h : ∀ m ∈ l, m.owner = i ∧ (m.isAck = true → m.term ≤ t)) (hx : x.owner = i ∧ (x.isAck = true → x.term ≤ t)) :
+    ∀ m ∈ l ++ [x], m.owner = i ∧ (m.isAck = true → m.term ≤ t) := by
   intro m hm
   simp only [List.mem_append, List.mem_singleton] at hm
   rcases hm with hm | hm
@@ -61,30 +79,45 @@ theorem invR_step (c0 : Cfg) (s s' : PSys) (e : Event) (hV : InvV c0 (vsys s)) (
   | bump i t =>
     simp only [applyEvent, ok] at h
     split at h
-    · cases h; exact invR_node s hI i _ _ rfl rfl rfl (Nat.le_refl _) (hI.own i)
+    · rename_i hg; cases h
+      refine invR_node s hI i _ _ rfl rfl rfl (Nat.le_refl _) ?_ (hI.pim i) (hI.dak i)
+      intro m hm; have := hI.own i m hm
+      exact ⟨this.1, fun ha => by have := this.2 ha; simp only; omega⟩
     · cases h
   | campaign i =>
     simp only [applyEvent, ok] at h
     split at h
     · cases h
-      refine invR_node s hI i _ _ rfl rfl rfl (Nat.le_refl _) ?_
+      refine invR_node s hI i _ _ rfl rfl rfl (Nat.le_refl _) ?_ (hI.pim i) (hI.dak i)
       intro m hm
       simp only [List.mem_append, List.mem_cons, List.not_mem_nil, or_false] at hm
       rcases hm with hm | hm | hm
       · exact hI.own i m hm
-      · subst hm; rfl
-      · subst hm; rfl
+      · subst hm; exact ⟨rfl, by simp [OMsg.isAck]⟩
+      · subst hm; exact ⟨rfl, by simp [OMsg.isAck]⟩
     · cases h
   | grant i c =>
     simp only [applyEvent, ok] at h
     split at h
-    · cases h
-      exact invR_node s hI i _ _ rfl rfl rfl (Nat.le_refl _) (mem_append_singleton_owner (hI.own i) rfl)
+    · split at h
+      · cases h
+        exact invR_node s hI i _ _ rfl rfl rfl (Nat.le_refl _)
+          (own_append (hI.own i) ⟨rfl, by simp [OMsg.isAck]⟩) (hI.pim i) (hI.dak i)
+      · cases h
     · cases h
   | rdy i =>
     simp only [applyEvent, ok] at h
     split at h
-    · cases h; exact invR_node s hI i _ _ rfl rfl rfl (Nat.le_refl _) (hI.own i)
+    · cases h
+      refine invR_node s hI i _ _ rfl rfl rfl (Nat.le_refl _) (hI.own i) ?_ (hI.dak i)
+      intro im him m hm
+      simp only [List.mem_append, List.mem_singleton] at him
+      rcases him with him | him
+      · exact hI.pim i im him m hm
+      · subst him
+        simp only [image, List.mem_filter] at hm
+        have := hI.own i m hm.1
+        exact ⟨this.1, this.2 hm.2⟩
     · cases h
   | persist i k =>
     simp only [applyEvent, ok] at h
@@ -92,11 +125,12 @@ theorem invR_step (c0 : Cfg) (s s' : PSys) (e : Event) (hV : InvV c0 (vsys s)) (
     · split at h
       · rename_i im him
         cases h
+        have hmemi : im ∈ (s.nodes i).pending := List.mem_of_getElem? him
         refine invR_node s hI i _ _ rfl rfl rfl ?_ (hI.own i)
-        -- the durable term never goes back: pending images are later than the durable one
+          (fun x hx => hI.pim i x (List.mem_of_mem_drop hx)) (hI.pim i im hmemi)
         have hmem : (im.term, im.vote) ∈ ((vsys s).nodes i).pend := by
           simp only [vsys, vproj, List.mem_map]
-          exact ⟨im, List.mem_of_getElem? him, rfl⟩
+          exact ⟨im, hmemi, rfl⟩
         have := (hV.pa i _ hmem).1
         simp only [le2, VNode.d, vsys, vproj] at this
         simp only; omega
@@ -105,160 +139,166 @@ theorem invR_step (c0 : Cfg) (s s' : PSys) (e : Event) (hV : InvV c0 (vsys s)) (
   | release i key =>
     simp only [applyEvent, ok] at h
     split at h
-    · rename_i k hk
-      split at h
+    · split at h
       · rename_i m hm
         split at h
         · rename_i hg
-          have hmem : m ∈ (s.nodes i).outbox := List.mem_of_getElem? hm
-          have hown := hI.own i m hmem
-          have hsub : ∀ x ∈ (s.nodes i).outbox.eraseIdx k, x.owner = i :=
-            fun x hx => hI.own i x (List.mem_of_mem_eraseIdx hx)
-          have hr := hg.2
+          have hmem : m ∈ (s.nodes i).dacks := List.mem_of_find?_eq_some hm
+          have hd := hI.dak i m hmem
           cases m with
-          | voteReq t c lt li =>
-            simp only [addReleased] at h
-            cases h
-            simp only [OMsg.owner] at hown
-            simp only [releasable, Bool.or_eq_true, Bool.and_eq_true, decide_eq_true_eq] at hr
-            constructor
-            · intro j x hx
-              by_cases hj : j = i
-              · subst hj; simp only [upd, if_true] at hx; exact hsub x hx
-              · simp only [upd, hj, if_false] at hx; exact hI.own j x hx
-            · intro r hr'
-              simp only [List.mem_cons] at hr'
-              rcases hr' with hr' | hr'
-              · subst hr'; simp only [upd, hown, if_true]; omega
-              · have := hI.rq r hr'
-                by_cases hj : r.cand = i
-                · simp only [upd, hj, if_true]; rw [hj] at this; exact this
-                · simp only [upd, hj, if_false]; exact this
-            · intro a ha'
-              have := hI.ak a ha'
-              by_cases hj : a.frm = i
-              · simp only [upd, hj, if_true]; rw [hj] at this; exact this
-              · simp only [upd, hj, if_false]; exact this
-          | grant t vv c =>
-            simp only [addReleased] at h
-            cases h
-            exact invR_node s hI i _ _ rfl rfl rfl (Nat.le_refl _) hsub
           | ack t f idx pre =>
             simp only [addReleased] at h
             cases h
-            simp only [OMsg.owner] at hown
-            simp only [releasable, Bool.or_eq_true, Bool.and_eq_true, decide_eq_true_eq] at hr
-            constructor
-            · intro j x hx
-              by_cases hj : j = i
-              · subst hj; simp only [upd, if_true] at hx; exact hsub x hx
-              · simp only [upd, hj, if_false] at hx; exact hI.own j x hx
-            · intro r hr'
-              have := hI.rq r hr'
-              by_cases hj : r.cand = i
-              · simp only [upd, hj, if_true]; rw [hj] at this; exact this
-              · simp only [upd, hj, if_false]; exact this
-            · intro a ha'
-              simp only [List.mem_cons] at ha'
-              rcases ha' with ha' | ha'
-              · subst ha'; simp only [upd, hown, if_true]; omega
-              · have := hI.ak a ha'
-                by_cases hj : a.frm = i
-                · simp only [upd, hj, if_true]; rw [hj] at this; exact this
-                · simp only [upd, hj, if_false]; exact this
+            simp only [OMsg.owner, OMsg.term] at hd
+            refine ⟨hI.own, hI.pim, hI.dak, hI.rq, ?_⟩
+            intro a ha
+            simp only [List.mem_cons] at ha
+            rcases ha with ha | ha
+            · subst ha; simp only; rw [hd.1]; exact hd.2
+            · exact hI.ak a ha
+          | voteReq t c lt li => simp [OMsg.isAck] at hg
+          | grant t vv c gh => simp [OMsg.isAck] at hg
         · cases h
       · cases h
-    · cases h
+    · split at h
+      · rename_i k hk
+        split at h
+        · rename_i m hm
+          split at h
+          · rename_i hg
+            have hmem : m ∈ (s.nodes i).outbox := List.mem_of_getElem? hm
+            have hown := (hI.own i m hmem).1
+            have hsub : ∀ x ∈ (s.nodes i).outbox.eraseIdx k, x.owner = i ∧ (x.isAck = true → x.term ≤ (s.nodes i).term) :=
+              fun x hx => hI.own i x (List.mem_of_mem_eraseIdx hx)
+            have hr := hg.2.1
+            cases m with
+            | voteReq t c lt li =>
+              simp only [addReleased] at h
+              cases h
+              simp only [OMsg.owner] at hown
+              simp only [releasable, Bool.or_eq_true, Bool.and_eq_true, decide_eq_true_eq] at hr
+              have hbase := invR_node s hI i { s.nodes i with outbox := (s.nodes i).outbox.eraseIdx k }
+                { s with nodes := upd s.nodes i { s.nodes i with outbox := (s.nodes i).outbox.eraseIdx k } }
+                rfl rfl rfl (Nat.le_refl _) hsub (hI.pim i) (hI.dak i)
+              refine ⟨hbase.own, hbase.pim, hbase.dak, ?_, hbase.ak⟩
+              intro r hr'
+              simp only [List.mem_cons] at hr'
+              rcases hr' with hr' | hr'
+              · subst hr'; simp only [upd, hown, if_true]; omega
+              · exact hbase.rq r hr'
+            | grant t vv c gh =>
+              simp only [addReleased] at h
+              cases h
+              exact invR_node s hI i _ _ rfl rfl rfl (Nat.le_refl _) hsub (hI.pim i) (hI.dak i)
+            | ack t f idx pre => simp [OMsg.isAck] at hg
+          · cases h
+        · cases h
+      · cases h
   | crash i =>
     simp only [applyEvent, ok] at h
     split at h
-    · cases h; exact invR_node s hI i _ _ rfl rfl rfl (Nat.le_refl _) (by simp)
+    · cases h; exact invR_node s hI i _ _ rfl rfl rfl (Nat.le_refl _) (by simp) (by simp) (hI.dak i)
     · cases h
   | restart i =>
     simp only [applyEvent, ok] at h
     split at h
-    · cases h; exact invR_node s hI i _ _ rfl rfl rfl (Nat.le_refl _) (by simp)
+    · cases h
+      refine invR_node s hI i _ _ rfl rfl rfl (Nat.le_refl _) ?_ (by simp) (hI.dak i)
+      intro m hm
+      simp only [List.mem_filter] at hm
+      have := hI.dak i m hm.1
+      exact ⟨this.1, fun _ => this.2⟩
     · cases h
   | win i cfg q =>
     simp only [applyEvent, ok] at h
     split at h
-    · cases h; exact invR_node s hI i _ _ rfl rfl rfl (Nat.le_refl _) (hI.own i)
+    · cases h; exact invR_node s hI i _ _ rfl rfl rfl (Nat.le_refl _) (hI.own i) (hI.pim i) (hI.dak i)
     · cases h
   | stepDown i =>
     simp only [applyEvent, ok] at h
     split at h
-    · cases h; exact invR_node s hI i _ _ rfl rfl rfl (Nat.le_refl _) (hI.own i)
+    · cases h; exact invR_node s hI i _ _ rfl rfl rfl (Nat.le_refl _) (hI.own i) (hI.pim i) (hI.dak i)
     · cases h
   | leaderAppend i e =>
     simp only [applyEvent, ok] at h
     split at h
-    · cases h; exact invR_node s hI i _ _ rfl rfl rfl (Nat.le_refl _) (hI.own i)
+    · cases h; exact invR_node s hI i _ _ rfl rfl rfl (Nat.le_refl _) (hI.own i) (hI.pim i) (hI.dak i)
     · cases h
   | sendApp i m =>
     simp only [applyEvent, ok] at h
     split at h
-    · cases h; exact ⟨hI.own, hI.rq, hI.ak⟩
+    · cases h; exact ⟨hI.own, hI.pim, hI.dak, hI.rq, hI.ak⟩
     · cases h
   | recvApp i m =>
     simp only [applyEvent, ok] at h
     split at h
     · cases h
-      exact invR_node s hI i _ _ rfl rfl rfl (Nat.le_refl _) (mem_append_singleton_owner (hI.own i) rfl)
+      exact invR_node s hI i _ _ rfl rfl rfl (Nat.le_refl _)
+        (own_append (hI.own i) ⟨rfl, fun _ => Nat.le_refl _⟩) (hI.pim i) (hI.dak i)
     · cases h
   | ackCommitted i =>
     simp only [applyEvent, ok] at h
     split at h
     · cases h
-      exact invR_node s hI i _ _ rfl rfl rfl (Nat.le_refl _) (mem_append_singleton_owner (hI.own i) rfl)
+      exact invR_node s hI i _ _ rfl rfl rfl (Nat.le_refl _)
+        (own_append (hI.own i) ⟨rfl, fun _ => Nat.le_refl _⟩) (hI.pim i) (hI.dak i)
+    · cases h
+  | ackSelf i idx =>
+    simp only [applyEvent, ok] at h
+    split at h
+    · cases h
+      exact invR_node s hI i _ _ rfl rfl rfl (Nat.le_refl _)
+        (own_append (hI.own i) ⟨rfl, fun _ => Nat.le_refl _⟩) (hI.pim i) (hI.dak i)
     · cases h
   | commitLeader i c cfg q =>
     simp only [applyEvent, ok] at h
     split at h
-    · cases h; exact invR_node s hI i _ _ rfl rfl rfl (Nat.le_refl _) (hI.own i)
+    · cases h; exact invR_node s hI i _ _ rfl rfl rfl (Nat.le_refl _) (hI.own i) (hI.pim i) (hI.dak i)
     · cases h
   | commitApp i c m =>
     simp only [applyEvent, ok] at h
     split at h
-    · cases h; exact invR_node s hI i _ _ rfl rfl rfl (Nat.le_refl _) (hI.own i)
+    · cases h; exact invR_node s hI i _ _ rfl rfl rfl (Nat.le_refl _) (hI.own i) (hI.pim i) (hI.dak i)
     · cases h
   | commitHB i c m =>
     simp only [applyEvent, ok] at h
     split at h
-    · cases h; exact invR_node s hI i _ _ rfl rfl rfl (Nat.le_refl _) (hI.own i)
+    · cases h; exact invR_node s hI i _ _ rfl rfl rfl (Nat.le_refl _) (hI.own i) (hI.pim i) (hI.dak i)
     · cases h
   | commitClaim i m =>
     simp only [applyEvent, ok] at h
     split at h
-    · cases h; exact invR_node s hI i _ _ rfl rfl rfl (Nat.le_refl _) (hI.own i)
+    · cases h; exact invR_node s hI i _ _ rfl rfl rfl (Nat.le_refl _) (hI.own i) (hI.pim i) (hI.dak i)
     · cases h
   | sendHB i to c =>
     simp only [applyEvent, ok] at h
     split at h
-    · cases h; exact ⟨hI.own, hI.rq, hI.ak⟩
+    · cases h; exact ⟨hI.own, hI.pim, hI.dak, hI.rq, hI.ak⟩
     · cases h
   | claim i idx =>
     simp only [applyEvent, ok] at h
     split at h
-    · cases h; exact ⟨hI.own, hI.rq, hI.ak⟩
+    · cases h; exact ⟨hI.own, hI.pim, hI.dak, hI.rq, hI.ak⟩
     · cases h
   | sendSnap i idx =>
     simp only [applyEvent, ok] at h
     split at h
-    · cases h; exact ⟨hI.own, hI.rq, hI.ak⟩
+    · cases h; exact ⟨hI.own, hI.pim, hI.dak, hI.rq, hI.ak⟩
     · cases h
   | installSnap i t idx sterm =>
     simp only [applyEvent, ok] at h
     split at h
     · split at h
       · cases h
-        exact invR_node s hI i _ _ rfl rfl rfl (Nat.le_refl _) (mem_append_singleton_owner (hI.own i) rfl)
+        exact invR_node s hI i _ _ rfl rfl rfl (Nat.le_refl _)
+          (own_append (hI.own i) ⟨rfl, fun _ => Nat.le_refl _⟩) (hI.pim i) (hI.dak i)
       · cases h
     · cases h
   | commitSnap i t idx sterm =>
     simp only [applyEvent, ok] at h
     split at h
     · split at h
-      · cases h; exact invR_node s hI i _ _ rfl rfl rfl (Nat.le_refl _) (hI.own i)
+      · cases h; exact invR_node s hI i _ _ rfl rfl rfl (Nat.le_refl _) (hI.own i) (hI.pim i) (hI.dak i)
       · cases h
     · cases h
   | bootstrap i donor idx =>
@@ -266,8 +306,12 @@ theorem invR_step (c0 : Cfg) (s s' : PSys) (e : Event) (hV : InvV c0 (vsys s)) (
     split at h
     · rename_i hg
       cases h
-      refine invR_node s hI i _ _ rfl rfl rfl ?_ (hI.own i)
-      simp only; omega
+      refine invR_node s hI i _ _ rfl rfl rfl ?_ ?_ (hI.pim i) ?_
+      · simp only; omega
+      · intro m hm; rw [hg.2.2.2.2.2.2.2.2.1] at hm; cases hm
+      · intro m hm
+        have := hI.dak i m hm
+        exact ⟨this.1, by simp only; omega⟩
     · cases h
 
 theorem invR_reach (c0 : Cfg) (s : PSys) (h : ReachC c0 s) : InvR s := by
